@@ -1342,3 +1342,16 @@ class SymOpaque(SymBase):
 
     def __repr__(self):
         return f"SymOpaque({self.t.s})"
+
+    def __getattr__(self, name):
+        # an attribute of a value nobody modelled: another opaque value, a function of this one (it can be passed on,
+        # logged or compared; using it in a decision or in arithmetic leaves the subset)
+        if name.startswith("__") and name.endswith("__"):
+            raise AttributeError(name)
+        c = cur()
+        c.decls.sort("Attr")
+        f = c.decls.fun(f"attr.{name}.{self.t.sort}", [self.t.sort], "Attr")
+        return SymOpaque(f(self.t))
+
+    def __bool__(self):
+        raise Unsupported("truth value of an opaque value")
